@@ -451,6 +451,20 @@ func run(e *core.Env) {
 		w.cleanupAttempt(att)
 	}
 
+	// ---- a message of another connection ----
+	if w.compat && tp.Chance(1, 2) {
+		time.Sleep(time.Second + time.Duration(tp.Intn(2000))*time.Millisecond)
+		r := tp.Intn(2)
+		nx := 0
+		ackSwap(w, r, func(id *m.Address) *linkpair.Stack {
+			st := node.BaseStore(id)
+			st.Router.Universe = uni[1-r]
+			st.Router.UniverseSecret = sec[1-r]
+			nx++
+			return linkpair.NewStack(e, fmt.Sprintf("x%d", nx), id, st, false)
+		})
+	}
+
 	// ---- the router connected to itself ----
 	if tp.Chance(1, 2) {
 		time.Sleep(time.Second + time.Duration(tp.Intn(2000))*time.Millisecond)
@@ -655,6 +669,79 @@ func run(e *core.Env) {
 		simnet.Wait()
 		V.Drain()
 	}
+}
+
+// ackSwap: while R (client) and P (server) are in a handshake, another router X that P accepts
+// connects to P as well; the adversary holds back P's last message to R and gives R the last
+// message P sent to X instead - correctly signed by P, fresh, but made for another connection.
+func ackSwap(w *world, r int, xStore func(*m.Address) *linkpair.Stack) {
+	e, tp := w.e, w.tp
+	R, P := w.S[r], w.S[1-r]
+	att1 := linkpair.Dial(w.cn, R, P)
+	var held *simnet.Record
+	fromP := 0
+	for guard := 0; guard < 60; guard++ {
+		var next *simnet.Record
+		for _, q := range w.cn.Heads() {
+			if q.Conn != att1.Pair || q == held {
+				continue
+			}
+			next = q
+			break
+		}
+		if next == nil {
+			break
+		}
+		if next.Dir == 1 && !next.EOF {
+			fromP++
+			if fromP == 3 {
+				held = next
+				w.cn.Remove(next)
+				continue
+			}
+		}
+		w.cn.Deliver(next)
+	}
+	if held == nil {
+		w.cleanupAttempt(att1)
+		return
+	}
+	time.Sleep(time.Duration(2+tp.Intn(30)) * time.Millisecond)
+	X := xStore(ident.Get(ident.Routable, 24+tp.Intn(4)))
+	w.cn.KeepLog = true
+	w.cn.Written = nil
+	att2 := linkpair.Dial(w.cn, X, P)
+	w.cn.DrainFIFO(tp, 200)
+	var toX [][]byte
+	for _, q := range w.cn.Written {
+		if q.Conn == att2.Pair && q.Dir == 1 && !q.EOF {
+			toX = append(toX, q.Data)
+		}
+	}
+	w.cn.KeepLog = false
+	w.cn.Written = nil
+	if len(toX) >= 3 {
+		w.cn.DeliverBytes(att1.Pair.A, append([]byte(nil), toX[2]...), false)
+		simnet.Wait()
+		w.cn.DrainFIFO(tp, 100)
+		e.Fault("message_of_another_connection")
+		e.Ev("ackswap", uint64(r), b2u(R.Node.Peering.GetLink(P.Node.IP) != nil))
+		if R.Node.Peering.GetLink(P.Node.IP) != nil {
+			e.Fail("link-registered-after-tampered-handshake/message-of-another-connection",
+				"%s: %s registered a link to %s although the last handshake message it received was the one %s had sent to another router on another connection",
+				w.desc, R.Node.Name, P.Node.Name, P.Node.Name)
+		}
+		e.Probe("message_of_another_connection_left_no_link")
+	}
+	for _, l := range X.Node.Peering.GetLinks() {
+		l.Close(nil)
+	}
+	_ = att2.Pair.A.Close()
+	_ = att2.Pair.B.Close()
+	w.cleanupAttempt(att1)
+	_ = X.Listener.Close()
+	X.Node.Kill()
+	simnet.Wait()
 }
 
 // selfLoop cross-wires a connection the router dials with one it accepts: every handshake
